@@ -630,10 +630,14 @@ func c13Verbatim(c *Ctx) {
 	}
 	control := c.nodeTokenFolder(c.SK("SK_Unknown")).Fold(h, makeBottoms(len(h.Params)))
 	ok := false
+	bad := false
 	why := ""
 	for _, ret := range arm.Fold.Returns {
 		if control.Reach[ret.Block()] {
 			continue
+		}
+		if len(ret.Results) > 1 && !isNilConst(ret.Results[len(ret.Results)-1]) && isNilConst(ret.Results[0]) {
+			continue // an error return
 		}
 		for _, rt := range plainOrigins.Roots(ret.Results[0]) {
 			switch {
@@ -657,12 +661,18 @@ func c13Verbatim(c *Ctx) {
 						}
 					}
 				})
-				ok = good && n > 0
+				if good && n > 0 {
+					ok = true
+				} else {
+					bad = true
+				}
 			default:
-				why = "returns " + rt.String()
+				bad = true
+				why = "on some path it returns " + rt.String() + " (" + c.P.InstrPos(ret) + ")"
 			}
 		}
 	}
+	ok = ok && !bad
 	c.R.Check(rule, "string-arm", arm.Pos, ok, "a string literal must evaluate to exactly the Value recorded by the parser; "+why)
 	c.R.Floor(rule, 1)
 }
